@@ -247,9 +247,11 @@ func runPES(line []byte, rec *recorder) {
 			vals = append(vals, cr33(r))
 		}
 		for _, b := range vals {
-			for which := 0; which < 3; which++ {
+			for which := 0; which < 4; which++ {
 				o := randOpt(r, 0, 0)
 				switch which {
+				case 3: // a decoding time equal to the presentation time
+					o.PTSDTSIndicator, o.PTS, o.DTS = 3, &astits.ClockReference{Base: b}, &astits.ClockReference{Base: b}
 				case 0:
 					o.PTSDTSIndicator, o.PTS = 2, &astits.ClockReference{Base: b}
 				case 1:
